@@ -5,6 +5,7 @@ import (
 	"encoding/binary"
 	"fmt"
 	"hash"
+	"os"
 	"sort"
 	"testing"
 )
@@ -58,6 +59,9 @@ func NewCtx(t *testing.T, prop, tier string, tape *Tape) *Ctx {
 // never reads a clock.
 func (c *Ctx) Logf(format string, a ...interface{}) {
 	s := fmt.Sprintf(format, a...)
+	if debugTrace {
+		fmt.Fprintln(os.Stderr, "  . "+s)
+	}
 	c.traceHash.Write([]byte(s))
 	c.traceHash.Write([]byte{'\n'})
 	c.traceN++
@@ -155,3 +159,5 @@ func (c *Ctx) Must(err error, what string) {
 		panic(HarnessError{what + ": " + err.Error()})
 	}
 }
+
+var debugTrace = os.Getenv("VERIF_DEBUG") != ""
